@@ -1241,10 +1241,17 @@ fn append_to_commitlog(
         }
     }
 
-    if publish.payload.is_empty() {
-        datalog.remove_from_retained_publishes(topic.to_owned());
-    } else if publish.retain {
-        datalog.insert_to_retained_publishes(publish.clone(), properties.clone(), topic.to_owned());
+    // only a retained publish touches the retained message of its topic: an empty payload removes it
+    if publish.retain {
+        if publish.payload.is_empty() {
+            datalog.remove_from_retained_publishes(topic.to_owned());
+        } else {
+            datalog.insert_to_retained_publishes(
+                publish.clone(),
+                properties.clone(),
+                topic.to_owned(),
+            );
+        }
     }
 
     // after recording retained message, we also send that message to existing subscribers
@@ -1312,10 +1319,17 @@ fn append_will_message(
         }
     }
 
-    if publish.payload.is_empty() {
-        datalog.remove_from_retained_publishes(topic.to_owned());
-    } else if publish.retain {
-        datalog.insert_to_retained_publishes(publish.clone(), properties.clone(), topic.to_owned());
+    // only a retained publish touches the retained message of its topic: an empty payload removes it
+    if publish.retain {
+        if publish.payload.is_empty() {
+            datalog.remove_from_retained_publishes(topic.to_owned());
+        } else {
+            datalog.insert_to_retained_publishes(
+                publish.clone(),
+                properties.clone(),
+                topic.to_owned(),
+            );
+        }
     }
 
     // after recording retained message, we also send that message to existing subscribers
